@@ -59,6 +59,17 @@ def deep_schemas(d):
                 if extra:
                     out.append(nest(dict(extra, **leaf), first))
     return [S for S in out if _e1.accepted(d, S)]
+
+
+_deep = {}
+
+
+def get_deep(d):
+    if d not in _deep:
+        _deep[d] = deep_schemas(d)       # built in plan(), shared with the forked workers
+    return _deep[d]
+
+
 ABSENT = ("zz", 7)          # indices that exist in none of the instances
 
 
@@ -79,25 +90,25 @@ def plan(ctx):
     units, sizes = _e1.make_units(ctx, kinds=kinds(ctx), pair_shards=32)
     for d in _e1.DRAFTS:
         units += [(d, "deep", i, 4) for i in range(4)]
-        sizes["deep_d%d" % d] = len(deep_schemas(d))
+        sizes["deep_d%d" % d] = len(get_deep(d))
     return {
         "units": units,
         "rule": ("error collections = list(iter_errors(x)) for every check_schema-accepted schema of G(draft) "
                  "(singles, all ordered pairs, sibling groups%s, and the 'deep' schemas: a small constraint "
                  "applied at every level through three levels of items / additionalProperties, combined with "
-                 "required / draft-3 required / propertyNames at every level) x U_d (instances with pairwise distinct leaves%s) x "
-                 "4 drafts with >= 1 error; each collection in EVERY arrival order when it has <= %d errors (n! "
+                 "required / draft-3 required / propertyNames at every level) x U_d (instances with pairwise "
+                 "distinct leaves%s) x 4 drafts with >= 1 error; each collection in EVERY arrival order when it has <= %d errors (n! "
                  "orders), otherwise in the n rotations of the collection and of its reversal (counted in "
                  "collections_above_permutation_limit). One evaluation = one arrival order: two ErrorTrees are built "
                  "from it (one for the non-inserting probes, a fresh one for indexing error-free elements) and "
                  "compared with a path trie over (path, keyword). Cases are distinct by construction (collections "
                  "are de-duplicated per unit on instance + ordered (path, keyword, schema path, error instance); "
-                 "distinct orders of distinct error objects); non-trivial = the collection has >= 2 errors or an error below "
-                 "the root" % (", nested" if ctx.thorough else "", " plus U" if ctx.thorough else "", PERM_LIMIT[ctx.tier])),
+                 "distinct orders of distinct error objects); non-trivial = the collection has >= 2 errors or an "
+                 "error below the root" % (", nested" if ctx.thorough else "", " plus U" if ctx.thorough else "", PERM_LIMIT[ctx.tier])),
         "bounds": dict(sizes, universe=len(universe(ctx.tier, "singles")), universe_for_pairs=len(universe(ctx.tier, "pairs")),
                        permutation_limit=PERM_LIMIT[ctx.tier], tier=ctx.tier),
-        "assumptions": ["within one work unit, two collections for the same instance whose errors agree pairwise and in order on "
-                        "(path, keyword, schema path, instance) are the same collection and are explored once "
+        "assumptions": ["within one work unit, two collections for the same instance whose errors agree pairwise and in "
+                        "order on (path, keyword, schema path, instance) are the same collection and are explored once "
                         "(ErrorTree reads path, keyword and instance only)",
                         "errors are taken from real validations only (top-level errors of iter_errors); membership and "
                         "iteration are probed before any lookup of an error-free element, and error-free elements "
@@ -197,9 +208,7 @@ def check_order(errors, trie):
         if te != n:
             problems.append(("total_errors|%s" % ("too-low" if te < n else "too-high"),
                              {"at": list(pre), "got": te, "expected": n}))
-        if len(node) != n and len(node) != te:
-            problems.append(("len|differs-from-total_errors", {"at": list(pre), "got": len(node), "expected": n}))
-        elif len(node) != n and te == n:
+        if len(node) != n and (te == n or len(node) != te):
             problems.append(("len|differs-from-total_errors", {"at": list(pre), "got": len(node), "expected": n}))
     if problems:
         return problems
@@ -303,7 +312,6 @@ def signature(kind, seq, problem, d, X):
     if kind.startswith("construct"):
         if len(seq) == 1:
             return "C17|%s|%s-alone" % (kind, classes[0])
-        trig, earlier = seq[-1], seq[-2]
         tc, ec, rel = classes[-1], classes[-2], relation(seq[-2], seq[-1])
         if ec == "propertyNames" and rel in ("root", "parent", "ancestor"):
             return "C17|%s|propertyNames-then-deeper" % kind
@@ -342,14 +350,14 @@ def pick(errors, order):
 def run_unit(unit, ctx):
     d = unit[0]
     U = universe(ctx.tier, unit[1])
-    ev = nt = nschemas = ncoll = capped = notenum = maxn = 0
+    ev = nt = nschemas = ncoll = capped = 0
     outcomes, samples, found, memo = {}, [], {}, {}
     resolver = RefResolver("", {})
     seen = set()        # per unit, so that the explored set does not depend on how units meet workers
     xkeys = [json.dumps(x) for x in U]
     ndistinct = 0
     limit = PERM_LIMIT[ctx.tier]
-    for S in (deep_schemas(d)[unit[2]::unit[3]] if unit[1] == "deep" else _e1.iter_unit(unit, ctx.tier)):
+    for S in (get_deep(d)[unit[2]::unit[3]] if unit[1] == "deep" else _e1.iter_unit(unit, ctx.tier)):
         if unit[1] not in ("singles", "deep") and not _e1.accepted(d, S):
             continue
         nschemas += 1
@@ -363,7 +371,6 @@ def run_unit(unit, ctx):
             if not n:
                 continue
             ncoll += 1
-            maxn = max(maxn, n)
             key = "errors=%d" % min(n, 8)
             outcomes[key] = outcomes.get(key, 0) + 1
             ckey = (xkey, tuple((tuple(e.path), e.validator, tuple(e.schema_path), repr(e.instance)) for e in errors))
@@ -404,8 +411,6 @@ def run_unit(unit, ctx):
                     slot[1] = {"signature": sig, "case": case, "size": size,
                                "detail": {"problems": [list(p) for p in pr],
                                           "arrival_order_seen": [brief(e) for e in seq]}}
-            if cap:
-                notenum += 1
             if n >= 3 and len(samples) < 2 and nschemas % 97 == 5:
                 samples.append({"draft": d, "schema": S, "instance": X,
                                 "errors": [[list(e.path), e.validator] for e in errors],
